@@ -28,6 +28,30 @@ impl Proc {
     }
     /// send a script, return all output lines up to the end marker
     pub fn run(&mut self, script: &str) -> Result<Vec<String>, String> {
+        self.run_deadline(script, None)
+    }
+    /// like `run`, with a hard wall-clock limit: the solver's own `:timeout` is a soft limit that some tactics do not
+    /// poll (a z3 process was seen spinning for 20 minutes on a 20 s limit); past the deadline the process is killed, the
+    /// call returns an error and the caller restarts the solver and treats the answer as `unknown`
+    pub fn run_deadline(&mut self, script: &str, hard_ms: Option<u64>) -> Result<Vec<String>, String> {
+        let (tx, rx) = std::sync::mpsc::channel::<()>();
+        let watchdog = hard_ms.map(|ms| {
+            let pid = self.child.id();
+            std::thread::spawn(move || {
+                // woken at once when the answer is in; kills the solver when the deadline passes first
+                if let Err(std::sync::mpsc::RecvTimeoutError::Timeout) = rx.recv_timeout(std::time::Duration::from_millis(ms)) {
+                    let _ = Command::new("kill").arg("-9").arg(pid.to_string()).status();
+                }
+            })
+        });
+        let r = self.run_inner(script);
+        let _ = tx.send(());
+        if let Some(w) = watchdog {
+            let _ = w.join();
+        }
+        r
+    }
+    fn run_inner(&mut self, script: &str) -> Result<Vec<String>, String> {
         let marker = "__VX_DONE__";
         let r = (|| -> std::io::Result<Vec<String>> {
             self.sin.write_all(script.as_bytes())?;
@@ -410,12 +434,12 @@ impl Solvers {
             // only asked after sat; z3 errors on get-value after unsat, handled below by ordering
         }
         let t0 = Instant::now();
-        let mut lines = match self.main.run(&text) {
+        let mut lines = match self.main.run_deadline(&text, Some(timeout_ms + 15_000)) {
             Ok(l) => l,
             Err(e) => {
-                // restart the solver once
+                // restart the solver (it died or was killed at the hard deadline)
                 self.main = Proc::spawn("z3-5.1.0", &["z3-new", "-in"]).expect("cannot restart z3-new");
-                vec![format!("(error \"{}\")", e)]
+                vec![format!("(error \"{} (no answer within the hard limit of {} ms, or the solver died)\")", e, timeout_ms + 15_000)]
             }
         };
         if want_model && lines.first().map(|s| s == "sat").unwrap_or(false) && !sc.vars.is_empty() {
@@ -450,9 +474,16 @@ impl Solvers {
                 script = script.replace("(reset)\n", "(reset)\n(set-logic QF_NIA)\n");
                 script = script.lines().filter(|l| !l.starts_with("(set-option :timeout")).collect::<Vec<_>>().join("\n");
             }
-            let r = match p.run(&script) {
+            let r = match p.run_deadline(&script, Some(45_000)) {
                 Ok(l) => short(&parse_answer(&l)),
-                Err(e) => format!("unknown({})", e),
+                Err(e) => {
+                    // killed at the hard deadline (or died): restart it for the next query
+                    let fresh = if p.name.starts_with("cvc5") { Proc::spawn("cvc5-1.0", &["cvc5", "--lang", "smt2", "--incremental", "--tlimit-per", "10000"]) } else { Proc::spawn("z3-4.8.12", &["/usr/bin/z3", "-in"]) };
+                    if let Some(f) = fresh {
+                        *p = f;
+                    }
+                    format!("unknown({})", e)
+                }
             };
             cross.push((p.name.clone(), r));
         }
